@@ -212,6 +212,10 @@ def judge(ctx, c, answers):
         got2 = call(PA.pda_to_cfg, P, True, limit=60)
         if enc.canon_pda(P, False) != before:
             ctx.violation('argument-mutated', {'case': c, 'op': 'pda_to_cfg(accepts_on_empty_stack=True)'})
+        fresh = call(PA.pda_to_cfg, enc.build_pda(c['P']), True, limit=60)
+        if ('ok' in got2) != ('ok' in fresh) or ('ok' in got2 and (len(got2['ok'].R), len(got2['ok'].V)) != (len(fresh['ok'].R), len(fresh['ok'].V))):
+            ctx.violation('pda_to_cfg(aes)-depends-on-earlier-calls-on-the-same-object', {'case': c, 'after_other_calls': str(got2)[:120] if 'ok' not in got2 else [len(got2['ok'].R), len(got2['ok'].V)],
+                          'fresh_object': str(fresh)[:120] if 'ok' not in fresh else [len(fresh['ok'].R), len(fresh['ok'].V)]})
         if any("'" in q for q in c['P']['Q']):
             pass
         elif 'ok' in got2:
